@@ -167,6 +167,10 @@ impl Iterator for CatchGradualDifficulty {
 
 impl ExactSizeIterator for CatchGradualDifficulty {
     fn len(&self) -> usize {
+        if self.count.is_empty() {
+            return 0;
+        }
+
         self.diff_objects.len() + 1 - self.idx
     }
 }
